@@ -292,13 +292,29 @@ package composite
 //@ props C10
 //@ sweep
 
+// Rendering reports success only if every single patch was applied without error (a failed
+// patch is never masked by a later one), and applies the patches of the right direction only.
 //@ func composite.RenderFromCompositePatches
 //@ props C10
 //@ sweep
+//@ ghost patchFailed bool = false
+//@ site composite.Apply($p, $xr, $cd, $only...)
+//@   assert [C10:patch-applied-between-the-given-resources] $xr == xr && $cd == cd
+//@   update patchFailed = patchFailed || err != nil
+//@ loop range p
+//@   invariant [C10:no-failed-patch-so-far] !patchFailed
+//@ ensures [C10:success-only-if-every-patch-applied] err == nil ==> !patchFailed
 
 //@ func composite.RenderToCompositePatches
 //@ props C10
 //@ sweep
+//@ ghost patchFailed bool = false
+//@ site composite.Apply($p, $xr, $cd, $only...)
+//@   assert [C10:patch-applied-between-the-given-resources] $xr == xr && $cd == cd
+//@   update patchFailed = patchFailed || err != nil
+//@ loop range p
+//@   invariant [C10:no-failed-patch-so-far] !patchFailed
+//@ ensures [C10:success-only-if-every-patch-applied] err == nil ==> !patchFailed
 
 //@ func composite.RenderComposedResourceMetadata
 //@ props C10
